@@ -1,0 +1,12 @@
+//go:build verif
+
+package link_holdopen_controller
+
+// VerifGate, when set, is called at scheduler gate points (build tag verif only).
+var VerifGate func(name string)
+
+func verifGate(name string) {
+	if f := VerifGate; f != nil {
+		f(name)
+	}
+}
